@@ -73,6 +73,9 @@ LAYOUTS_T = {
 }
 
 
+UNIT = [Fraction(1)]  # per job: magnitude of every prescribed value and load ('tiny' configurations: 2^-50; the problem is linear, nothing may depend on an absolute magnitude)
+
+
 def apply_layout(simu, layout, tag=""):
     """adds the conditions with fresh symbols; returns expected[dof] = sum of entered Dirichlet values (Sym)"""
     c = ctx()
@@ -89,15 +92,15 @@ def apply_layout(simu, layout, tag=""):
         for u in unknowns:
             k += 1
             if vk == "const":
-                s = c.var(f"{tag}v{k}", -1, 1)
+                s = c.var(f"{tag}v{k}", -UNIT[0], UNIT[0])
                 vals.append(s)
                 per_node.append([s] * len(nodes))
             elif vk == "array":
-                arr = sym_array(f"{tag}a{k}_", (len(nodes),))
+                arr = sym_array(f"{tag}a{k}_", (len(nodes),), -UNIT[0], UNIT[0])
                 vals.append(arr)
                 per_node.append(list(arr))
             else:
-                p = sym_array(f"{tag}p{k}_", (3,))
+                p = sym_array(f"{tag}p{k}_", (3,), -UNIT[0], UNIT[0])
                 vals.append(lambda x, y, z, p=p: p[0] + p[1] * x + p[2] * y)
                 per_node.append([p[0] + p[1] * Fraction(float(X[n, 0])) + p[2] * Fraction(float(X[n, 1])) for n in nodes])
         if kind == "D":
@@ -124,11 +127,12 @@ def job_layout(cfg):
     res = JobResult(cfg)
     c = new_context()
     facade.install()
+    UNIT[0] = Fraction(1, 2 ** 50) if cfg.get("tiny") else Fraction(1)
     mesh, simu = build(cfg)
     layout = (LAYOUTS_T if cfg["sim"] == "thermal" else LAYOUTS)[cfg["layout"]]
     if cfg["sim"] == "nonsym":
         layout = [x for x in layout if x[0] != "S"]  # surface loads need a model thickness semantics; keep point loads
-    key = f"{cfg['sim']} {cfg['layout']}" + (" +orphan" if cfg.get("orphan") else "") + (" newton" if cfg.get("newton") else "")
+    key = f"{cfg['sim']} {cfg['layout']}" + (" +orphan" if cfg.get("orphan") else "") + (" newton" if cfg.get("newton") else "") + (" in tiny units (values below 2^-50)" if cfg.get("tiny") else "")
     pt = simu.problemType
     dof_n = simu.Get_dof_n(pt)
     simu.Get_K_C_M_F()
@@ -211,7 +215,7 @@ def job_layout(cfg):
         if d in orphan_dofs:
             res.record(f"{key} orphan dof {d} stays at rest", prove_abs_le(as_sym(u[d]) - (u0[d] if cfg.get("newton") else 0), 0, pcs, key), lambda env: _replay_layout(cfg, layout, env, c), key=f"{key} orphan node")
             continue
-        res.record(f"{key} (K u - F)[{d}] = 0", prove_abs_le(r[d], TOL * kmax, pcs, key), lambda env: _replay_layout(cfg, layout, env, c), key=f"{key} free-dof equilibrium",
+        res.record(f"{key} (K u - F)[{d}] = 0", prove_abs_le(r[d], TOL * kmax * UNIT[0], pcs, key), lambda env: _replay_layout(cfg, layout, env, c), key=f"{key} free-dof equilibrium",
                    sample=None if len(res.samples) > 1 else {"config": key, "obligation": f"|(K u - F)[{d}]| <= 1e-9 max|K| for all symbolic prescribed values and loads ({res.symbols} symbols)"})
     # (3) elimination vs Lagrange multipliers: the same problem where one more dof is constrained either by a Dirichlet
     #     condition (r1) or by a single-dof Lagrange condition 1*u_d = g (which switches Solve_simu to r2)
@@ -247,7 +251,7 @@ def job_layout(cfg):
         for d in range(n):
             if sols[0] is None or sols[1] is None:
                 break
-            res.record(f"{key} elimination = Lagrange at dof {d}", prove_abs_le(as_sym(sols[0][d]) - as_sym(sols[1][d]), TOL, c.pc_since(mark), key),
+            res.record(f"{key} elimination = Lagrange at dof {d}", prove_abs_le(as_sym(sols[0][d]) - as_sym(sols[1][d]), TOL * UNIT[0], c.pc_since(mark), key),
                        lambda env: _replay_r1_r2(cfg, layout, env, c), key=f"{key} elimination = Lagrange")
     # twin
     d0 = sorted(expected)[0]
@@ -298,6 +302,7 @@ def BoundaryConditionDofs(simu):
 
 
 def _replay_layout(cfg, layout, env, c, r2=False, return_simu=False):
+    unit = float(UNIT[0])
     """Concrete replay: every symbol evaluated at the counterexample / shadow point; unproxied pipeline, scipy direct solver."""
     from EasyFEA.Simulations import Solvers
 
@@ -362,7 +367,7 @@ def _replay_layout(cfg, layout, env, c, r2=False, return_simu=False):
             u, _ = getattr(Solvers, "__Solver_2")(s2, pt)
             u1, _ = Solvers.Solve_simu(s2, pt)
             d = float(np.abs(np.asarray(u) - np.asarray(u1)).max())
-            return d > 1e-8, {"max_difference_elimination_vs_lagrange": d}
+            return d > 1e-8 * unit, {"max_difference_elimination_vs_lagrange": d}
         u, _ = Solvers.Solve_simu(s2, pt)
         base = u
     K = s2.Get_K_C_M_F()[0].toarray()
@@ -372,7 +377,7 @@ def _replay_layout(cfg, layout, env, c, r2=False, return_simu=False):
     err_c = max(abs(u[d] - w) for d, w in expected.items())
     err_f = float(np.abs(r[free]).max()) / float(np.abs(K).max()) if free else 0.0
     nan = bool(np.isnan(np.asarray(u, dtype=float)).any())
-    return (err_c > 1e-9 or err_f > 1e-9 or nan), {"max_error_on_constrained_dofs": float(err_c), "max_relative_residual_on_free_dofs": err_f, "nan_in_solution": nan}
+    return (err_c > 1e-9 * unit or err_f > 1e-9 * unit or nan), {"max_error_on_constrained_dofs": float(err_c), "max_relative_residual_on_free_dofs": err_f, "nan_in_solution": nan}
 
 
 def job_connection(cfg):
@@ -679,6 +684,7 @@ def _apply_concrete(simu, layout, full, c, tag):
 
 
 def job(cfg):
+    UNIT[0] = Fraction(1)  # per-job switch: never inherited from the previous job of the same worker
     if cfg.get("resolve"):
         return job_resolve(cfg)
     if cfg.get("backend"):
@@ -697,6 +703,10 @@ def main():
         configs.append({"sim": "nonsym", "layout": lay})
     configs.append({"sim": "nonsym", "layout": "overlap", "orphan": True})
     configs.append({"sim": "thermal", "layout": "thermal"})
+    # every prescribed value and load below 2^-50 ~ 9e-16 (a problem in small units)
+    configs.append({"sim": "thermal", "layout": "thermal", "tiny": True})
+    configs.append({"sim": "elastic", "layout": "disjoint", "tiny": True})
+    configs.append({"sim": "nonsym", "layout": "overlap", "tiny": True})
     configs.append({"sim": "thermal", "layout": "thermal", "orphan": True})
     configs.append({"sim": "elastic", "layout": "disjoint", "newton": True})
     configs.append({"sim": "elastic", "layout": "single", "newton": True})
